@@ -1,6 +1,8 @@
-(* Plant.v — CHPAsset / Plant (assets.py:1372-2021) without start / shutdown ramp profiles: unit commitment with
-   on and start binaries, capacity, ramp, start definition, minimum run time and down time, heat share, fuel mapping.
-   Durations are handed over in grid steps (the harness applies the documented rounding up). *)
+(* Plant.v — CHPAsset / Plant (assets.py:1372-2021): unit commitment with on, start and shutdown binaries, capacity,
+   start / shutdown ramp profiles (for the virtual dispatch; profiles given in the frequency of the grid), ramp, start and
+   shutdown definition, minimum run time and down time, heat share, fuel mapping.
+   Durations are handed over in grid steps (the harness applies the documented rounding up); not modelled: separate heat
+   profiles, profiles in another frequency than the grid's (interpolation). *)
 From Coq Require Import QArith ZArith List Lia Bool String Arith.
 From EAO Require Import Num LP Mapping Grid Assets Periodic Build.
 Import ListNotations.
@@ -13,7 +15,10 @@ Record plant_p := {
   pl_R : nat; pl_tar : nat; pl_D : nat; pl_toff : nat;
   pl_mincap_nonzero : bool;                (* np.any(self.min_cap != 0.) *)
   pl_cf : param; pl_share : option param;
-  pl_start_fuel : param; pl_eff : param; pl_cons : param }.
+  pl_start_fuel : param; pl_eff : param; pl_cons : param;
+  (* start / shutdown ramp profiles (lower, upper bounds per step after the start / before turning off), and the nominal
+     step length in main time units they are multiplied with *)
+  pl_sr_lo : vec; pl_sr_hi : vec; pl_sd_lo : vec; pl_sd_hi : vec; pl_conv : Q }.
 
 Definition any_b_zero (v : vec) : bool := existsb (fun a => Qeq_bool a 0) v.
 Definition any_nz (v : vec) : bool := existsb (fun a => negb (Qeq_bool a 0)) v.
@@ -34,6 +39,18 @@ Definition pl_rows_dt (on_idx T D toff : nat) : list crow :=
        [ {| r_a := [((on_idx + t)%nat, 1); ((on_idx + t - i)%nat, -1)] ++ (if Nat.ltb i t then [((on_idx + t - i - 1)%nat, 1)] else []);
             r_t := RU; r_b := if negb (Nat.ltb i t) && Nat.eqb toff 0 then 0 else 1 |} ] else [])
                               (seq 1 (D - 1)%nat)) (seq 0 T).
+
+(* start and shutdown flags defined together (assets.py:1885-1925) *)
+Definition pl_rows_startshut (on_idx start_idx shut_idx T tar : nat) : list crow :=
+  map (fun t => {| r_a := [((on_idx + t + 1)%nat, 1); ((on_idx + t)%nat, -1); ((start_idx + t + 1)%nat, -1); ((shut_idx + t + 1)%nat, 1)]; r_t := RS; r_b := 0 |}) (seq 0 (T - 1)%nat) ++
+  (if Nat.eqb tar 0 then [ {| r_a := [(on_idx, 1); (start_idx, -1)]; r_t := RS; r_b := 0 |} ]
+   else [ {| r_a := [(on_idx, 1); (shut_idx, 1)]; r_t := RS; r_b := 1 |} ]) ++
+  map (fun t => {| r_a := [((start_idx + t)%nat, 1); ((shut_idx + t)%nat, 1)]; r_t := RU; r_b := 1 |}) (seq 0 T).
+(* profile terms of the capacity row of step i: (minimum or maximum capacity - profile value) on the start flag j steps back
+   and on the shutdown flag j+1 steps ahead *)
+Definition pl_profile_terms (start_idx shut_idx T i : nat) (cap : Q) (sr sd : vec) : srow :=
+  flat_map (fun j => if Nat.leb j i then [((start_idx + i - j)%nat, Qred (cap - nth j sr 0))] else []) (seq 0 (List.length sr)) ++
+  flat_map (fun j => if Nat.ltb (i + j + 1) T then [((shut_idx + i + j + 1)%nat, Qred (cap - nth j sd 0))] else []) (seq 0 (List.length sd)).
 
 Definition plant (g : grid) (rg : rgrid) (cp : contract_p) (mx mn : list take) (p : plant_p) : option aprob :=
   obind (contract_core g rg cp mx mn) (fun base =>
@@ -56,7 +73,14 @@ Definition plant (g : grid) (rg : rgrid) (cp : contract_p) (mx mn : list take) (
     let has_fuel := match pl_fuel p with Some _ => true | None => false end in
     if has_heat && any_b_zero cf then None else
     if has_fuel && any_b_zero ef then None else
-    let inc_start0 := Nat.ltb 1 (pl_R p) || any_nz sc in
+    let conv := pl_conv p in
+    let sr_lo := map (fun v => Qred (v * conv)) (pl_sr_lo p) in let sr_hi := map (fun v => Qred (v * conv)) (pl_sr_hi p) in
+    let sd_lo := map (fun v => Qred (v * conv)) (pl_sd_lo p) in let sd_hi := map (fun v => Qred (v * conv)) (pl_sd_hi p) in
+    let S := List.length sr_lo in let Dn := List.length sd_lo in
+    if negb (Nat.eqb (List.length sr_hi) S && Nat.eqb (List.length sd_hi) Dn) then None else
+    let R := (pl_R p + S + Dn)%nat in
+    let inc_shut := Nat.ltb 0 S || Nat.ltb 0 Dn in
+    let inc_start0 := Nat.ltb 1 R || any_nz sc || inc_shut in
     let inc_on0 := inc_start0 || Nat.ltb 1 (pl_D p) || pl_mincap_nonzero p in
     let inc_start := if has_fuel then inc_start0 || any_nz sf else inc_start0 in
     let inc_on := if has_fuel then inc_on0 || inc_start || any_nz co else inc_on0 in
@@ -66,23 +90,27 @@ Definition plant (g : grid) (rg : rgrid) (cp : contract_p) (mx mn : list take) (
     let nd := if has_heat then (2 * n)%nat else n in
     let on_idx := nd in
     let start_idx := (nd + T)%nat in
-    let nv := (nd + (if inc_on then T else 0) + (if inc_on && inc_start then T else 0))%nat in
     let inc_start := inc_on && inc_start in
+    let shut_idx := (nd + T + T)%nat in
+    if inc_shut && (match pl_ramp p with Some _ => true | None => false end) && Nat.ltb T Dn then None else
     (* costs *)
     let c0 := lp_c P in
     let c1 := if has_heat then c0 ++ vmul cf c0 else c0 in
     let c2 := if inc_on then c1 ++ rc else c1 in
     let c3 := if inc_start then c2 ++ sc else c2 in
+    let c3 := if inc_shut then c3 ++ repeat 0 T else c3 in
     (* bounds *)
     let l0 := if inc_on then repeat 0 n else minc in
     let l1 := if has_heat then repeat 0 (2 * n) else l0 in
     let u1 := if has_heat then maxc ++ (match sh with Some s => vmul s maxc | None => map (fun pq => Qred (fst pq / snd pq)) (combine maxc cf) end) else maxc in
-    let on_l := map (fun t => if (Nat.ltb 0 (pl_tar p)) && Nat.ltb t (pl_R p - pl_tar p)%nat && inc_start && Nat.ltb 1 (pl_R p) then 1 else 0) (seq 0 T) in
+    let on_l := map (fun t => if (Nat.ltb 0 (pl_tar p)) && Nat.ltb t (R - pl_tar p)%nat && inc_start && Nat.ltb 1 R then 1 else 0) (seq 0 T) in
     let on_u := map (fun t => if Nat.ltb 1 (pl_D p) && (Nat.ltb 0 (pl_toff p)) && Nat.ltb t (pl_D p - pl_toff p)%nat then 0 else 1) (seq 0 T) in
     let l2 := if inc_on then l1 ++ on_l else l1 in
     let u2 := if inc_on then u1 ++ on_u else u1 in
     let l3 := if inc_start then l2 ++ repeat 0 T else l2 in
-    let u3 := if inc_start then u2 ++ repeat 1 T else u2 in
+    let u3 := if inc_start then u2 ++ (if inc_shut && negb (Nat.eqb (pl_tar p) 0) then 0 :: repeat 1 (T - 1) else repeat 1 T) else u2 in
+    let l3 := if inc_shut then l3 ++ repeat 0 T else l3 in
+    let u3 := if inc_shut then u3 ++ (if Nat.eqb (pl_tar p) 0 then 0 :: repeat 1 (T - 1) else repeat 1 T) else u3 in
     (* virtual dispatch of step i as a sparse row with sign k *)
     let vrow (i : nat) (k : Q) (cfi : Q) : srow := (i, k) :: (if has_heat then [((heat_idx + i)%nat, Qred (k * cfi))] else []) in
     let I0 := hd 0%nat I in
@@ -90,24 +118,37 @@ Definition plant (g : grid) (rg : rgrid) (cp : contract_p) (mx mn : list take) (
     (* base rows, columns duplicated for heat *)
     let rows_base := map (fun r => {| r_a := r_a r ++ (if has_heat then map (fun e => ((heat_idx + fst e)%nat, Qred (qnth cf (fst e) * snd e))) (r_a r) else []);
                                        r_t := r_t r; r_b := r_b r |}) (lp_rows P) in
-    let rows_lo := map (fun i => {| r_a := vrow i 1 (qnth cf i) ++ (if inc_on then [(onpos i, - qnth minc i)] else []); r_t := RL; r_b := 0 |}) (seq 0 n) in
-    let rows_up := map (fun i => {| r_a := vrow i 1 (qnth cf i) ++ (if inc_on then [(onpos i, - qnth maxc i)] else []); r_t := RU;
-                                     r_b := if inc_on then 0 else qnth maxc i |}) (seq 0 n) in
+    let cap0 := if Nat.ltb 0 (pl_tar p) then (S - pl_tar p)%nat else 0%nat in
+    let rows_lo := map (fun i => {| r_a := vrow i 1 (qnth cf i) ++ (if inc_on then [(onpos i, - qnth minc i)] else []) ++
+                                            pl_profile_terms start_idx shut_idx T i (qnth minc i) sr_lo sd_lo; r_t := RL; r_b := 0 |}) (seq cap0 (n - cap0)) in
+    let rows_up := map (fun i => {| r_a := vrow i 1 (qnth cf i) ++ (if inc_on then [(onpos i, - qnth maxc i)] else []) ++
+                                            pl_profile_terms start_idx shut_idx T i (qnth maxc i) sr_hi sd_hi; r_t := RU;
+                                     r_b := if inc_on then 0 else qnth maxc i |}) (seq cap0 (n - cap0)) in
+    (* a unit that is still inside its start profile at the first step *)
+    let rows_inprofile := if Nat.ltb 0 (pl_tar p) && Nat.ltb (pl_tar p) S then
+        flat_map (fun i => [ {| r_a := vrow i 1 (qnth cf i); r_t := RU; r_b := nth (pl_tar p + i) sr_hi 0 |};
+                             {| r_a := vrow i 1 (qnth cf i); r_t := RL; r_b := nth (pl_tar p + i) sr_lo 0 |} ]) (seq 0 (S - pl_tar p))
+      else [] in
     let rows_ramp := match pl_ramp p with
       | None => []
       | Some rmp0 =>
         let rmp := Qred (rmp0 * dt0) in
         let last := Qred (pl_last p * dt0) in
         flat_map (fun t =>
-           [ {| r_a := vrow t 1 (qnth cf t) ++ vrow (t - 1)%nat (-1) (qnth cf (t - 1)%nat) ++ (if inc_on then [((on_idx + t - 1)%nat, rmp)] else []);
+           [ {| r_a := vrow t 1 (qnth cf t) ++ vrow (t - 1)%nat (-1) (qnth cf (t - 1)%nat) ++ (if inc_on then [((on_idx + t - 1)%nat, rmp)] else []) ++
+                       flat_map (fun i => if Nat.ltb (t + i) T then [((shut_idx + t + i)%nat, Qred (qnth maxc (t - 1)%nat - rmp))] else []) (seq 0 Dn);
                 r_t := RL; r_b := if inc_on then 0 else - rmp |};
-             {| r_a := vrow t 1 (qnth cf t) ++ vrow (t - 1)%nat (-1) (qnth cf (t - 1)%nat) ++ (if inc_on then [((on_idx + t)%nat, - rmp)] else []);
+             {| r_a := vrow t 1 (qnth cf t) ++ vrow (t - 1)%nat (-1) (qnth cf (t - 1)%nat) ++ (if inc_on then [((on_idx + t)%nat, - rmp)] else []) ++
+                       flat_map (fun i => if Nat.leb i t then [((start_idx + t - i)%nat, Qred (rmp - qnth maxc t))] else []) (seq 0 S);
                 r_t := RU; r_b := if inc_on then 0 else rmp |} ]) (seq 1 (T - 1)%nat) ++
-        [ {| r_a := vrow 0%nat 1 (qnth cf 0%nat); r_t := RL; r_b := if Nat.eqb (pl_tar p) 0 then last else Qred (last - rmp) |};
-          {| r_a := vrow 0%nat 1 (qnth cf 0%nat) ++ (if inc_on then [(on_idx, - rmp)] else []); r_t := RU; r_b := if inc_on then last else Qred (last + rmp) |} ]
+        [ {| r_a := vrow 0%nat 1 (qnth cf 0%nat) ++ map (fun i => ((shut_idx + i)%nat, Qred (last - rmp))) (seq 0 Dn);
+             r_t := RL; r_b := if Nat.eqb (pl_tar p) 0 then last else Qred (last - rmp) |};
+          {| r_a := vrow 0%nat 1 (qnth cf 0%nat) ++ (if inc_on then [(on_idx, - rmp)] else []); r_t := RU;
+             r_b := if inc_on then (if Nat.ltb 0 (pl_tar p) && Nat.ltb (pl_tar p) S then Qred (last + qnth maxc 0%nat - rmp) else last) else Qred (last + rmp) |} ]
       end in
-    let rows_start := if inc_start then pl_rows_start on_idx start_idx T (pl_tar p) else [] in
-    let rows_rt := if inc_start && Nat.ltb 1 (pl_R p) then pl_rows_rt on_idx start_idx T (pl_R p) else [] in
+    let rows_start := if inc_start then (if inc_shut then pl_rows_startshut on_idx start_idx shut_idx T (pl_tar p)
+                                          else pl_rows_start on_idx start_idx T (pl_tar p)) else [] in
+    let rows_rt := if inc_start && Nat.ltb 1 R then pl_rows_rt on_idx start_idx T R else [] in
     let rows_dt := if Nat.ltb 1 (pl_D p) then pl_rows_dt on_idx T (pl_D p) (pl_toff p) else [] in
     let rows_heat := match has_heat, sh with
       | true, Some s => map (fun i => {| r_a := [((heat_idx + i)%nat, 1); (i, - qnth s i)]; r_t := RU; r_b := 0 |}) (seq 0 n)
@@ -117,6 +158,7 @@ Definition plant (g : grid) (rg : rgrid) (cp : contract_p) (mx mn : list take) (
     let mp_heat := match pl_heat p with Some hn => map (fun r => Build_mrow (heat_idx + m_var r) (m_asset r) (Some hn) (m_type r) (m_step r) (m_factor r) (m_name r) (m_bool r)) mp_power | None => [] end in
     let mp_on := if inc_on then bool_mrows (cp_name cp) "bool_on" on_idx I else [] in
     let mp_start := if inc_start then bool_mrows (cp_name cp) "bool_start" start_idx I else [] in
+    let mp_shut := if inc_shut then bool_mrows (cp_name cp) "bool_shutdown" shut_idx I else [] in
     let mp_fuel := match pl_fuel p with
       | None => []
       | Some fn =>
@@ -125,8 +167,8 @@ Definition plant (g : grid) (rg : rgrid) (cp : contract_p) (mx mn : list take) (
         map (fun r => Build_mrow (m_var r) (m_asset r) (Some fn) "d" (m_step r) (- qnth co (m_var r - on_idx)%nat) (m_name r) (m_bool r)) mp_on ++
         map (fun r => Build_mrow (m_var r) (m_asset r) (Some fn) "d" (m_step r) (- qnth sf (m_var r - start_idx)%nat) (m_name r) (m_bool r)) mp_start
       end in
-    Some {| ap_lp := Build_lp c3 l3 u3 (rows_base ++ rows_lo ++ rows_up ++ rows_ramp ++ rows_start ++ rows_rt ++ rows_dt ++ rows_heat);
-            ap_map := mp_power ++ mp_heat ++ mp_on ++ mp_start ++ mp_fuel |}
+    Some {| ap_lp := Build_lp c3 l3 u3 (rows_base ++ rows_lo ++ rows_up ++ rows_inprofile ++ rows_ramp ++ rows_start ++ rows_rt ++ rows_dt ++ rows_heat);
+            ap_map := mp_power ++ mp_heat ++ mp_on ++ mp_start ++ mp_shut ++ mp_fuel |}
   | _, _, _, _, _, _, _ => None
   end).
 
